@@ -403,3 +403,125 @@ func (p *Prog) indexesField(n ast.Node, field string) bool {
 	})
 	return found
 }
+
+func init() {
+	registerExtra("C08", ruleWhatIfOnDuplicate)
+	registerExtra("C17", ruleConfiguredFilterNotEmpty)
+}
+
+// ruleWhatIfOnDuplicate: the what-if bookkeeping of a preemption attempt works on one copy of the queue snapshots.
+func ruleWhatIfOnDuplicate(c *Ctx) {
+	p := c.p
+	c.Rule("C08.j", "a Preemptor method that duplicates the queue snapshots (duplicateQueueSnapshots) applies and reads its what-if changes (AddAllocation, RemoveAllocation, GetRemainingGuaranteedResource, GetPreemptableResource) on entries of that duplicate only: a change applied to the original snapshot is invisible to the guarantee tests that follow, so queues at their guaranteed share keep losing tasks")
+	methods := []string{"objects.QueuePreemptionSnapshot.AddAllocation", "objects.QueuePreemptionSnapshot.RemoveAllocation",
+		"objects.QueuePreemptionSnapshot.GetRemainingGuaranteedResource", "objects.QueuePreemptionSnapshot.GetPreemptableResource"}
+	n := 0
+	for _, fn := range p.funcs {
+		if fn.Decl.Body == nil || !p.methodOf(fn, "objects.Preemptor") {
+			continue
+		}
+		dups := map[interface{}]bool{}
+		for _, call := range p.callsIn(fn, "objects.Preemptor.duplicateQueueSnapshots") {
+			if as, ok := p.Parent(call).(*ast.AssignStmt); ok && len(as.Lhs) == 1 {
+				if id, isID := as.Lhs[0].(*ast.Ident); isID {
+					dups[p.ObjOf(id)] = true
+				}
+			}
+		}
+		if len(dups) == 0 {
+			continue
+		}
+		fromDup := func(e ast.Expr) bool {
+			if ix, ok := unparen(e).(*ast.IndexExpr); ok {
+				e = ix.X
+			}
+			id, ok := unparen(e).(*ast.Ident)
+			return ok && dups[p.ObjOf(id)]
+		}
+		for _, call := range p.callsIn(fn, methods...) {
+			n++
+			id, isID := unparen(Recv(call)).(*ast.Ident)
+			ok := false
+			if isID {
+				obj := p.ObjOf(id)
+				defs, good := 0, true
+				ast.Inspect(fn.Decl.Body, func(m ast.Node) bool {
+					switch x := m.(type) {
+					case *ast.AssignStmt:
+						for i, l := range x.Lhs {
+							if li, isL := l.(*ast.Ident); isL && p.ObjOf(li) == obj {
+								defs++
+								r := x.Rhs[0]
+								if len(x.Rhs) == len(x.Lhs) {
+									r = x.Rhs[i]
+								}
+								if !fromDup(r) {
+									good = false
+								}
+							}
+						}
+					case *ast.RangeStmt:
+						if vi, isV := x.Value.(*ast.Ident); isV && p.ObjOf(vi) == obj {
+							defs++
+							if !fromDup(x.X) {
+								good = false
+							}
+						}
+					}
+					return true
+				})
+				ok = defs > 0 && good
+			}
+			c.Check("C08.j", shortFn(p.CalleeName(call))+" on the duplicate in "+fn.Name, call, ok, "%s is applied to %s, which is not an entry of the duplicated snapshot map of this function: the what-if state the guarantee tests read does not see it", shortFn(p.CalleeName(call)), p.Src(Recv(call)))
+		}
+	}
+	c.Floor("C08.j", "what-if snapshot operations in duplicating Preemptor methods", n, 20)
+}
+
+// ruleConfiguredFilterNotEmpty: a filter configured with users or groups never degrades into the match-all empty filter.
+func ruleConfiguredFilterNotEmpty(c *Ctx) {
+	p := c.p
+	c.Rule("C17.g", "newFilter: every branch taken because the configuration lists users or groups (condition on len(conf.Users) / len(conf.Groups)) clears filter.empty unconditionally; entries dropped by the sanity check must leave a filter that matches nobody, not the empty filter that admits (allow) or refuses (deny) everybody")
+	fn := c.MustFunc("C17.g", "placement.newFilter")
+	if fn == nil {
+		return
+	}
+	n := 0
+	for _, st := range fn.Decl.Body.List {
+		is, ok := st.(*ast.IfStmt)
+		if !ok {
+			continue
+		}
+		src := p.Src(is.Cond)
+		if !strings.HasPrefix(src, "len(conf.Users)") && !strings.HasPrefix(src, "len(conf.Groups)") {
+			continue
+		}
+		if strings.Contains(src, "&&") {
+			continue // the diagnostics after each half
+		}
+		// does the branch populate the filter?
+		populates := false
+		ast.Inspect(is.Body, func(m ast.Node) bool {
+			if as, isA := m.(*ast.AssignStmt); isA {
+				for _, l := range as.Lhs {
+					if strings.HasPrefix(p.Src(l), "filter.userList[") || strings.HasPrefix(p.Src(l), "filter.groupList[") || strings.HasPrefix(p.Src(l), "filter.userExp") || strings.HasPrefix(p.Src(l), "filter.groupExp") {
+						populates = true
+					}
+				}
+			}
+			return true
+		})
+		if !populates {
+			continue
+		}
+		n++
+		cleared := false
+		for _, bs := range is.Body.List {
+			if as, isA := bs.(*ast.AssignStmt); isA && len(as.Lhs) == 1 && p.Src(as.Lhs[0]) == "filter.empty" && p.Src(as.Rhs[0]) == "false" {
+				cleared = true
+			}
+		}
+		c.Check("C17.g", "configured list clears the empty flag: "+src, is, cleared, "the branch for %s does not clear filter.empty on all its paths: a configured list of which no entry passes the name check yields an empty filter and the rule admits users its filter does not name", src)
+	}
+	c.Floor("C17.g", "list/expression branches in newFilter", n, 4)
+}
